@@ -424,6 +424,7 @@ def shard(args):
             check_concurrent_allocation(ns, res, r)
         if not res.vkeys.get('pickle-roundtrip'):
             check_worker_transfer(ns, res, r)
+            check_copies_after_transfer(ns, res, r)
         if args['shard'] == 0 and not res.vkeys.get('pickle-roundtrip') \
                 and not res.vkeys.get('pool-transfer-failed'):
             check_deep(ns, res, pool)
@@ -515,6 +516,54 @@ def check_concurrent_allocation(ns, res, r):
                 f'{"equal" if ta == tb else "different"}',
                 {'a': ta, 'b': tb})
             break
+
+
+def check_copies_after_transfer(ns, res, r):
+    """Copies get fresh identities - also for a tree that came from another
+    process.  A simplification inserts one node at several places; in the
+    worker's answer each occurrence is a separate object that carries the
+    same id (pickling keeps ids); the re-duplication the strategies apply to
+    an adopted answer must still give every later copy an identity of its
+    own, and change nothing else."""
+    import pickle
+    for _ in range(20):
+        shared = refmodel.build(ns.Node, r.choice(
+            ['x', ['f', 'x', []], ['g', ['h', 'y'], 'z'], []]))
+        k = r.randint(2, 4)
+        tops = []
+        for j in range(r.randint(1, 3)):
+            kids = [ns.Node(r.choice('abc')) for _ in range(r.randint(0, 2))]
+            for _ in range(k if j == 0 else r.randint(0, 2)):
+                kids.insert(r.randint(0, len(kids)), shared)
+            tops.append(ns.Node(*kids) if kids else ns.Node())
+        received = pickle.loads(pickle.dumps(tops))
+        res.count('evaluations')
+        res.count('copies_after_transfer')
+        want = refmodel.to_nested_list(tops)
+        try:
+            out = ns.nodes.reduplicate(received)
+        except Exception as e:  # noqa
+            res.violation('copy-after-transfer:raised',
+                          f'reduplicate raised {e!r} on a received tree',
+                          {'tree': want})
+            return
+        ids = [x for t in out for x in ids_of(t)]
+        if refmodel.to_nested_list(out) != want:
+            res.violation('copy-after-transfer:structure',
+                          'the copy of a received tree is not equal to it',
+                          {'tree': want})
+            return
+        if len(ids) != len(set(ids)):
+            res.violation(
+                'copy-after-transfer:identities-not-fresh',
+                f'{len(ids) - len(set(ids))} node(s) of a tree received '
+                f'from another process still share an identity after the '
+                f'copies were made', {'tree': want})
+            return
+        if [hash(a) for a in out] != [hash(b) for b in tops]:
+            res.violation('copy-after-transfer:hash',
+                          'hash changed by copying', {'tree': want})
+            return
 
 
 def check_worker_transfer(ns, res, r):
